@@ -208,3 +208,17 @@ CLAIMS["C10"] = (
     "checked for cache consistency, canonical form and zero (their value cannot be evaluated); the derivative of acosh "
     "in the left half plane is not decidable in the value domain (no Gaussian perfect-square point within range)",
     "TLA+ symbolic differentiation + denotational semantics + TLC trace validation")
+
+CLAIMS["C36"] = (
+    "model_checking",
+    "TLC enumerates ~1000 rational expressions for as_numer_denom (n/d must have the value of e at positive "
+    "assignments and neither n nor d may carry a negative numeric exponent or a fraction at its top level), ~1500 "
+    "number expressions with Gaussian constants, integer and fractional powers, exponentials and functions of "
+    "complex arguments for as_real_imag (re + I*im = e, re and im real, decided exactly or from the polar form), "
+    "trigonometric and hyperbolic expressions for rewrite_as_exp / rewrite_as_sin / rewrite_as_cos / expand_as_exp "
+    "/ trig_to_sqrt (all special angles k*pi/12, k*pi/5, k*pi/8, pi/10) and a mixed pool for conjugate at complex "
+    "points; TLC validates value preservation at every assignment where both sides are defined",
+    "6/C36", TRUSTED + "; as_real_imag throws for any expression containing a symbol (pinned by the test-suite), so it "
+    "is exercised on number expressions only; expand_as_exp is implemented for hyperbolic functions only "
+    "(NotImplementedError elsewhere is accepted)",
+    "TLA+ denotational semantics + TLC trace validation")
